@@ -237,6 +237,11 @@ func searchC03(o *Opts) {
 		if o.Tier == "thorough" && rng.Intn(20) == 0 {
 			n = 1500
 		}
+		if ci%12 == 5 {
+			// well beyond what the approximate index examines before it gives up (200 candidates without
+			// improvement): here "exact" and the default precision really differ
+			n = 450 + rng.Intn(200)
+		}
 		sc := newSearchColl(o, rng, ci, n)
 		ids := sc.ids()
 		for qi := 0; qi < nq; qi++ {
